@@ -447,3 +447,91 @@ def wide_recipes(tier, add):
         except ValueError:
             continue
         add('ResizingOperator', _o(c, lab, 'how', 'dir', 'pad_const', 'offset', pad_mode='constant'), mk)
+
+
+# ---------------------------------------------------------------------------------------------------------------------
+# HISTORIES on expression classes constructed DIRECTLY with their optional temporaries (OperatorComp tmp=, OperatorSum
+# tmp_ran= / tmp_dom=): take the derivative at x, then use the shared temporaries elsewhere (in-place evaluation of the
+# expression or of the derivative at ANOTHER point, a second derivative at another point), then evaluate the first
+# derivative (out-of-place and in place): it must still be the derivative at x (same relation, Trace_Derivative).
+HISTORIES = ('none', 'op-inplace-elsewhere', 'deriv-inplace-elsewhere', 'second-derivative-elsewhere', 'all')
+XRH, DRH, ZRH = [1.3, 0.7, 1.9], [0.5, -1.0, 0.75], [-0.6, 2.1, 0.4]
+XCH, DCH, ZCH = [1.3 + 0.4j, 0.7 - 0.7j, 1.9 + 0.3j], [0.5 + 0.5j, -1.0 + 0.25j, 0.75 - 1.0j], [-0.6 + 1.1j, 2.1 - 0.3j, 0.4 + 0.8j]
+
+
+def history_errors(op, x, d, z, hist, h0=2.0 ** -6):
+    """-> (errs (max over out-of-place / in-place evaluation of the derivative taken BEFORE the history), scale, D)"""
+    D = op.derivative(x)
+    if hist in ('op-inplace-elsewhere', 'all'):
+        op(z, out=op.range.element()) if not isinstance(op.range, odl.set.sets.Field) else op(z)
+    if hist in ('deriv-inplace-elsewhere', 'all'):
+        D(z, out=D.range.element()) if not isinstance(D.range, odl.set.sets.Field) else D(z)
+    if hist in ('second-derivative-elsewhere', 'all'):
+        D2 = op.derivative(z)
+        D2(x, out=D2.range.element()) if not isinstance(D2.range, odl.set.sets.Field) else D2(x)
+    Dd = D(d)
+    if isinstance(op.range, odl.set.sets.Field):
+        Dd_ip = Dd
+    else:
+        Dd_ip = op.range.element()
+        D(d, out=Dd_ip)
+        Dd_ip = Dd_ip.copy()
+    scale = max(norm_of(op.range, Dd), 1e-3)
+    errs = []
+    for h in (h0, h0 / 2, h0 / 4):
+        fd = (op(x + h * d) - op(x - h * d)) / (2 * h)
+        errs.append(max(norm_of(op.range, fd - Dd), norm_of(op.range, fd - Dd_ip)))
+    return errs, scale, D
+
+
+def history_recipes(tier='quick'):
+    """(family, options, fn -> (op, x, d, z)) for directly constructed expression objects with / without temporaries."""
+    R = []
+    r3, c3 = odl.rn(3), odl.cn(3)
+    ar = r3.element([2.0, -1.0, 0.5])
+    ac = c3.element([1 + 1j, -0.5j, 2.0])
+    lefts = {
+        'ComplexModulusSquared': (c3, lambda: odl.ComplexModulusSquared(c3)),
+        'ComplexModulus': (c3, lambda: odl.ComplexModulus(c3)),
+        'PowerOperator': (r3, lambda: odl.PowerOperator(r3, 3)),
+        'ufunc-sin': (r3, lambda: odl.ufunc_ops.sin(r3)),
+        'L2NormSquared': (r3, lambda: odl.solvers.L2NormSquared(r3)),
+        'comp-with-tmp': (c3, lambda: odl.OperatorComp(odl.PowerOperator(r3, 2), odl.ComplexModulusSquared(c3), tmp=r3.element())),
+    }
+    rights = {
+        'linear': lambda sp, a: odl.MultiplyOperator(a, domain=sp, range=sp),
+        'affine': lambda sp, a: odl.OperatorSum(odl.MultiplyOperator(a, domain=sp, range=sp), odl.ConstantOperator(a)),
+        'nonlinear-comp': lambda sp, a: odl.OperatorComp(odl.MultiplyOperator(a, domain=sp, range=sp),
+                                                        odl.OperatorSum(odl.IdentityOperator(sp), odl.ConstantOperator(a)),
+                                                        tmp=sp.element()),
+    }
+    for lname, (sp, mk) in lefts.items():
+        cplx = sp is c3
+        a = ac if cplx else ar
+        pts = (XCH, DCH, ZCH) if cplx else (XRH, DRH, ZRH)
+        for rname, mkr in rights.items():
+            for tmp in ('given', 'none'):
+                for hist in HISTORIES:
+                    def fn(mk=mk, mkr=mkr, sp=sp, a=a, tmp=tmp, pts=pts):
+                        op = odl.OperatorComp(mk(), mkr(sp, a), tmp=sp.element() if tmp == 'given' else None)
+                        return (op,) + tuple(sp.element(p) for p in pts)
+                    R.append(('OperatorComp', {'built': 'direct', 'left': lname, 'right': rname, 'tmp': tmp, 'history': hist}, fn))
+    # OperatorSum with both temporaries, one, none; summands nonlinear with derivatives that keep / do not keep the point
+    sums = {
+        'modsq+mod': (c3, lambda: (odl.ComplexModulusSquared(c3), odl.ComplexModulus(c3))),
+        'pow+sin': (r3, lambda: (odl.PowerOperator(r3, 3), odl.ufunc_ops.sin(r3))),
+        'comp+modsq': (c3, lambda: (odl.OperatorComp(odl.ComplexModulusSquared(c3), odl.MultiplyOperator(ac, domain=c3, range=c3),
+                                                     tmp=c3.element()), odl.ComplexModulusSquared(c3))),
+    }
+    for sname, (sp, mk) in sums.items():
+        cplx = sp is c3
+        pts = (XCH, DCH, ZCH) if cplx else (XRH, DRH, ZRH)
+        for tmp in ('both', 'ran', 'dom', 'none'):
+            for hist in HISTORIES:
+                def fn(mk=mk, sp=sp, tmp=tmp, pts=pts):
+                    a, b = mk()
+                    op = odl.OperatorSum(a, b, tmp_ran=a.range.element() if tmp in ('both', 'ran') else None,
+                                         tmp_dom=a.domain.element() if tmp in ('both', 'dom') else None)
+                    return (op,) + tuple(sp.element(p) for p in pts)
+                R.append(('OperatorSum', {'built': 'direct', 'summands': sname, 'tmp': tmp, 'history': hist}, fn))
+    return R
